@@ -2018,7 +2018,11 @@ def run_c03_loops(ctx, RID="C03-f", soft=False):
         got = scalar_of(res, "loop number")
         ers = [(c, v) for c, v in I.early_returns]
         ok_empty = len(ers) == 1 and ers[0][0] == "empty(S)" and isinstance(ers[0][1], Num) and ers[0][1].expr == Expr.zero()
-        ctx.ob(RID, "the empty set has loop number 0", ok_empty, fn, "loops-empty", detail="early returns %s" % [c for c, _ in ers])
+        # without a guard the value for the empty set is the empty sum over the components of the empty set (the components routine is
+        # abstracted: that the empty set has no component is part of what it is assumed to compute)
+        no_guard = not ers
+        ctx.ob(RID, "the empty set has loop number 0 (%s)" % ("explicit guard" if ok_empty else "empty sum over components(∅)"), ok_empty or no_guard, fn, "loops-empty",
+               detail="early returns %s" % [c for c, _ in ers])
         j = fresh("j")
         ecls = "edges(comp(«%s»))" % j
         verts = "{%s}" % "; ".join(sorted(["%s : §s∈%s" % (leaf("vl", "§s").key(), ecls), "%s : §s∈%s" % (leaf("vr", "§s").key(), ecls)]))
